@@ -7,10 +7,17 @@ text / records and the value read back, the Lean spec (`Spec/Transcripts.lean`) 
 Every write goes through a path and through an open file (compared byte for byte), every read
 through both (compared for equality), under every option of the case.
 
-Case kinds: trn (trees), trn_lines (raw lines incl. malformed), ctm, textgrid, frames, dispatch.
+Case kinds: trn (trees), trn_lines (raw lines incl. malformed), ctm, ctm_text (hand-written ctm text:
+comments, confidence column, odd spacing, number spellings, malformed lines), textgrid, tg_doc (TextGrid
+files with several tiers in the long and the short layout, tier selected by name / index), frames, dispatch.
+
+Every file is additionally written through an `io.StringIO` and through a file opened with
+`newline="\r\n"`, and the CRLF file is read back in text mode and without newline translation.
 """
 import ast
 import atexit
+import collections
+import collections.abc
 import io
 import itertools
 import json
@@ -19,6 +26,7 @@ import shutil
 import subprocess
 import sys
 import tempfile
+import types
 import warnings
 from fractions import Fraction
 from pathlib import Path
@@ -65,12 +73,48 @@ def py_item(x):
     return [[py_item(y) for y in b] for b in x]
 
 
-def py_top(x):
+def py_top(x, bare=False):
+    """bare: a top-level alternate handed to write_trn as the list itself ("x could be the token or a
+    list of alternates") instead of the `(alts, -1, -1)` wrapping read_trn produces."""
     if isinstance(x, dict):
         return (x["tok"], fl(x["s"]), fl(x["e"]))
     if isinstance(x, str):
         return x
-    return (py_item(x), -1, -1)
+    return py_item(x) if bare else (py_item(x), -1, -1)
+
+
+class PlainMapping(collections.abc.Mapping):
+    """A Mapping that is not a dict (only `__getitem__` raising KeyError, `__iter__`, `__len__`)."""
+
+    def __init__(self, d):
+        self._d = dict(d)
+
+    def __getitem__(self, k):
+        return self._d[k]
+
+    def __iter__(self):
+        return iter(self._d)
+
+    def __len__(self):
+        return len(self._d)
+
+
+MAP_TYPES = ["dict", "proxy", "plain", "chain", "ordered"]
+
+
+def as_mapping(d, kind):
+    if d is None or kind in (None, "dict"):
+        return d
+    if kind == "proxy":
+        return types.MappingProxyType(d)
+    if kind == "plain":
+        return PlainMapping(d)
+    if kind == "chain":
+        items = list(d.items())
+        return collections.ChainMap(dict(items[:len(items) // 2]), dict(items[len(items) // 2:]))
+    if kind == "ordered":
+        return collections.OrderedDict(reversed(list(d.items())))
+    raise ValueError(kind)
 
 
 def canon_item(x):
@@ -111,6 +155,39 @@ def write_both(write, stem):
     b1 = open(p1, "rb").read() if os.path.exists(p1) and r1 is None else None
     b2 = open(p2, "rb").read() if r2 is None else None
     return (r1, b1), (r2, b2), p2
+
+
+def write_more(write, stem, text):
+    """The other kinds of "already open file": an io.StringIO (must hold the same characters) and a
+    file opened with newline="\r\n" (must hold the same characters with CRLF line ends).
+    -> (stringio_same, crlf_same, path of the CRLF file)"""
+    sio = io.StringIO()
+    try:
+        write(sio)
+        sio_same = sio.getvalue() == text
+    except Exception:
+        sio_same = False
+    p3 = os.path.join(tmpdir(), stem + ".crlf")
+    try:
+        with open(p3, "w", newline="\r\n") as f:
+            write(f)
+        with open(p3, "rb") as f:
+            crlf_same = f.read() == text.replace("\n", "\r\n").encode("utf-8")
+    except Exception:
+        crlf_same = False
+    return sio_same, crlf_same, p3
+
+
+def read_crlf(read, path):
+    """A CRLF file read in text mode (newline translation) and raw (newline="")."""
+    out = {}
+    for how, kw in (("text", {}), ("raw", {"newline": ""})):
+        try:
+            with open(path, **kw) as f:
+                out[how] = {"ok": read(f)}
+        except Exception as e:
+            out[how] = {"error": type(e).__name__}
+    return out
 
 
 def read_both(read, path):
@@ -208,11 +285,21 @@ def ast_dispatch_table():
 
 
 # ----------------------------------------------------------------------------- generators
+# beyond Latin-1: CJK, astral plane, combining mark, right-to-left, zero-width space / BOM (not white space
+# for str.split/strip), title-case digraph
+TOK_UNI = ["日本語", "\U0001F600", "e\u0301", "שלום", "a\u200bb", "\ufeffx", "ǅ"]
+# the delimiters of the *other* formats are ordinary characters here: '"' (TextGrid), ';;' (ctm), '(u)' (trn)
 TOK_ANY = ["a", "b", "cat", "dog", "abc", "x", "12", "3.5", "-1", "1e3", "0", "é", "ß", "(", ")", "a(b", "a)",
-           "@", "w'", "<unk>", "A-B", "under_score", "q;;r"]
+           "@", "w'", "<unk>", "A-B", "under_score", "q;;r", '"', 'a"b', '""', "<exists>", ";", ";;"] + TOK_UNI
 TOK_TOP_ONLY = ["/", "}", "a/b", "x}", "}/"]
-TOK_TIMED = [t for t in TOK_ANY if ";;" not in t] + ["{", "/", "a;b"]   # ctm: ';;' starts a comment
-UTTS = ["u1", "utt 2", " lead", "trail ", "a  b", "940328-A", "3", "1.5", "", "é ü", "x-{y}", "a/b", "{", "}"]
+TOK_TIMED = [t for t in TOK_ANY if ";;" not in t] + ["{", "/", "}", "a;b", "(u)", "{a/b}", ";a;"]   # ctm: ';;' starts a comment
+# TextGrid labels: anything without '"'; white space and new lines are part of the label
+TOK_TG = [t for t in TOK_ANY if '"' not in t] + ["two words", "", "{", "/", "(u)", "a\nb", "\n", "1.5\n2.5", "x ", " lead",
+                                                 "a\tb", "IntervalTier", "a\u3000b"]
+# white space of str.strip()/str.split() beyond ASCII: never expressible in trn/ctm (malformed stream)
+TOK_WHITE = ["a\u3000b", "\u3000a", "a\xa0", "\xa0a", "\u2028x", "a\x1cb", "a\x85", "x\u2003", "a\rb", "\u1680"]
+UTTS = ["u1", "utt 2", " lead", "trail ", "a  b", "940328-A", "3", "1.5", "", "é ü", "x-{y}", "a/b", "{", "}",
+        "日本", "u\u3000x", '"q"', ";;c", "\U0001F600 1"]
 
 
 def gen_tok(rng, in_alt):
@@ -246,12 +333,12 @@ def grid_time(rng, lo=0, hi=30):
     return Fraction(rng.randrange(lo * 64, hi * 64 + 1), 64)
 
 
-def gen_timed(rng, n, hi=30, sort=False, zero_len=0.15):
+def gen_timed(rng, n, hi=30, sort=False, zero_len=0.15, toks=None):
     out = []
     for _ in range(n):
         s = grid_time(rng, 0, hi)
         e = s if rng.random() < zero_len else s + Fraction(rng.randrange(1, 64 * 3), 64)
-        out.append([rng.choice(TOK_TIMED), s, e])
+        out.append([rng.choice(toks or TOK_TIMED), s, e])
     if sort:
         out.sort(key=lambda x: x[1])
     return [[t, frac_str(s), frac_str(e)] for t, s, e in out]
@@ -293,7 +380,7 @@ class C11(PropertyCheck):
                     lines.append("".join(tup))
         for i in range(0, len(lines), 400):
             yield {"kind": "trn_lines", "lines": lines[i:i + 400]}
-        soup_alpha = "{{}}//()  ab1\t"
+        soup_alpha = "{{}}//()  ab1\t\u3000\xa0\r\x1c"
         for _ in range(10 if not big else 60):
             ls = []
             for _ in range(100):
@@ -308,9 +395,15 @@ class C11(PropertyCheck):
             utts = [{"utt": rng.choice(UTTS), "t": [gen_top(rng, depth) for _ in range(rng.randint(0, 5))]}
                     for _ in range(nutt)]
             yield {"kind": "trn", "utts": utts, "chunk": rng.choice([1, 2, 1000]), "processes": rng.choice([1, 3]),
-                   "warn": rng.random() < 0.3}
+                   "warn": rng.random() < 0.3, "bare": rng.random() < 0.4,
+                   "iterable": rng.choice(["list", "list", "gen", "tuple"])}
+        # every shape of a bare three-branch alternate (len(x) == 3 is what a timed token looks like)
+        for b2 in ([], ["b"], ["b", "c"], [[["p"], ["q"]]]):
+            for b3 in (["d"], ["d", "e"], [[["r"], [], ["s", "t"]]]):
+                yield {"kind": "trn", "utts": [{"utt": "u", "t": ["x", [["a"], b2, b3], "y"]}], "chunk": 1,
+                       "processes": 1, "warn": False, "bare": True, "iterable": "list"}
         # malformed trees: tokens with delimiters, empty last branch, empty tokens, parens in the id
-        bad_toks = ["{", "a{b", "", " ", "a b", "\t", "x\ty"]
+        bad_toks = ["{", "a{b", "", " ", "a b", "\t", "x\ty"] + TOK_WHITE
         for i in range(30 if not big else 200):
             t = [gen_top(rng, 2) for _ in range(rng.randint(1, 4))]
             mode = rng.choice(["tok", "emptylast", "utt", "alt_tok", "noalts"])
@@ -329,14 +422,14 @@ class C11(PropertyCheck):
                    "malformed": mode}
         # --- ctm
         n_ctm = 120 if not big else 1200
-        wfns = ["940328", "sw 1".replace(" ", "_"), "a", "b", "10", "9", "A", "é"]
-        chans = ["A", "B", "1", "2"]
+        wfns = ["940328", "sw 1".replace(" ", "_"), "a", "b", "10", "9", "A", "é", "日本", '"w"', "(w)"]
+        chans = ["A", "B", "1", "2", "é", ";"]
         for i in range(n_ctm):
             nutt = rng.choice([1, 2, 3, 4])
-            utt_ids = rng.sample(["u1", "u2", "u10", "u9", "x", "y", "é", "3"], nutt)
+            utt_ids = rng.sample(["u1", "u2", "u10", "u9", "x", "y", "é", "3", "日本", "{u}", 'u"'], nutt)
             ts = [[u, gen_timed(rng, rng.choice([0, 1, 2, 3, 5]), hi=rng.choice([5, 30]))] for u in utt_ids]
             mode = rng.choice(["chan", "dict", "dict", "default"])
-            case = {"kind": "ctm", "ts": ts}
+            case = {"kind": "ctm", "ts": ts, "map_type": rng.choice(MAP_TYPES)}
             if mode == "dict":
                 pairs = rng.sample([(w, c) for w in wfns for c in chans], nutt)
                 case["utt2wc"] = [[u, w, c] for u, (w, c) in zip(utt_ids, pairs)]
@@ -350,8 +443,9 @@ class C11(PropertyCheck):
             yield case
         for i in range(15 if not big else 100):  # malformed: negative times, end < start, missing key
             ts = [["u1", gen_timed(rng, 2)], ["u2", gen_timed(rng, 1)]]
-            mode = rng.choice(["neg", "rev", "key", "key_read"])
-            case = {"kind": "ctm", "ts": ts, "utt2wc": "A", "wc2utt": None, "malformed": mode}
+            mode = rng.choice(["neg", "rev", "key", "key_read", "white", "comment", "empty"])
+            case = {"kind": "ctm", "ts": ts, "utt2wc": "A", "wc2utt": None, "malformed": mode,
+                    "map_type": rng.choice(MAP_TYPES)}
             if mode == "neg":
                 ts[0][1][0][1] = "-1/2"
             elif mode == "rev":
@@ -360,6 +454,30 @@ class C11(PropertyCheck):
             elif mode == "key":
                 case["utt2wc"] = [["u1", "w", "A"]]
                 case["wc2utt"] = [["w", "A", "u1"]]
+            elif mode == "white":      # white space inside a column: the line gets more / other columns
+                k = rng.choice(["tok", "utt", "chan"])
+                if k == "tok":
+                    ts[0][1][0][0] = rng.choice(TOK_WHITE + ["a b", "a b c", " "])
+                elif k == "utt":
+                    ts[0][0] = rng.choice(["u 1", "u\u30001", "u\t1"])
+                else:
+                    case["utt2wc"] = rng.choice(["A B", "\xa0", "A\u2003"])
+            elif mode == "comment":    # ';;' inside a column cuts the line
+                k = rng.choice(["tok", "utt", "chan"])
+                if k == "tok":
+                    ts[0][1][0][0] = rng.choice(["q;;r", ";;", "x;;"])
+                elif k == "utt":
+                    ts[0][0] = rng.choice(["u;;1", ";;u"])
+                else:
+                    case["utt2wc"] = ";;"
+            elif mode == "empty":      # an empty column disappears
+                k = rng.choice(["tok", "utt", "chan"])
+                if k == "tok":
+                    ts[0][1][0][0] = ""
+                elif k == "utt":
+                    ts[0][0] = ""
+                else:
+                    case["utt2wc"] = ""
             else:
                 case["utt2wc"] = [["u1", "w", "A"], ["u2", "v", "A"]]
                 case["wc2utt"] = [["w", "A", "u1"]]
